@@ -21,7 +21,9 @@ ASSUMPTIONS = ['literals whose byte count is not an integer are not generated (t
 BUDGET = {'quick': 50, 'thorough': 900}
 
 UNITS = ['', 'b', 'k', 'kb', 'kib', 'm', 'mb', 'mib', 'g', 'gb', 'gib', 't', 'tb', 'tib']
-NUMS = ['1', '2', '5', '10', '0.5', '1.5', '2.25', '.5', '2.', '.25', '01', '1.50']
+NUMS = ['1', '2', '5', '10', '0.5', '1.5', '2.25', '.5', '2.', '.25', '01', '1.50',
+        # decimal fractions that have no exact binary form (number x multiplier is still a whole number of bytes in the decimal units)
+        '2.01', '1.001', '64.1', '4.02', '32.3', '0.007']
 NUMS_T = NUMS + ['0', '3', '7', '100', '1023', '1024', '0.25', '0.75', '12.5', '999', '1000', '0.125']
 OPS = [('=', lambda a, b: a == b), ('<', lambda a, b: a < b), ('>', lambda a, b: a > b), ('<=', lambda a, b: a <= b),
        ('>=', lambda a, b: a >= b), ('!=', lambda a, b: a != b)]
